@@ -33,7 +33,9 @@ ASSUMPTIONS = [
 FRAGS = ["<", ">", "&", "\"", "'", "<script>alert(1)</script>", "</TT><script>", "\" onmouseover=\"x", "' onclick='x", "<b>",
          "&lt;", "&amp;", "&#60;", "-->", "<!--", "]]>", "</a>", "<a href=\"http://evil/\">", "</card>", "<do type=\"accept\">",
          "$(sr0)", "+INFO: 1fake\tfake\tfake\t70", "+ADMIN:", "+VIEWS:", "\r\n", "\n", "\r\nSet-Cookie: x=1", "\r\n\r\n<html>",
-         "%0d%0a", "%22", "%3c", "abc", "x y", "\xc3\xa9", "\xff"]
+         "%0d%0a", "%22", "%3c", "abc", "x y", "\xc3\xa9", "\xff",
+         # text that a regular-expression replacement template, a %-format or str.format would expand
+         "\\074script\\076", "\\042\\076", "\\g<0>", "\\1", "\\n", "\\d", "%s", "%(x)s", "{0}", "{x}"]
 payload_st = st.lists(st.sampled_from(FRAGS), min_size=1, max_size=4).map("".join)
 
 POSITIONS = ["noname-path", "noname-remote-path", "selector-error", "url-redirect", "filename", "dirname", "html-title", "subject", "abstract-sidecar",
